@@ -167,6 +167,7 @@ let judge line =
     let n = List.fold_left (fun a s -> a + List.length s) 0 seqs in
     let verdicts = List.filter_map (fun e ->
       if e = "" || e.[0] = '#' then None else
+      if String.contains e '!' then Some (Printf.sprintf "rank=%s:input-sequences-modified" (List.hd (String.split_on_char ':' e))) else
       (try match String.split_on_char ':' e with
         | [r; "throw"] -> let rank = int_of_string r in if rank >= 0 && rank < n then Some ("rank=" ^ r ^ ":selection") else None
         | [r; v; off] ->
@@ -184,6 +185,8 @@ let judge line =
     let n = List.fold_left (fun a s -> a + List.length s) 0 seqs in
     let verdicts = List.filter_map (fun e ->
       if e = "" || e.[0] = '#' then None else      (* "#v=<variant>" tokens name the template variant that disagreed *)
+      if String.contains e '!' then               (* "!INPUT-MODIFIED": a call changed the caller's sequences *)
+        Some (Printf.sprintf "rank=%s:input-sequences-modified" (List.hd (String.split_on_char ':' e))) else
       match String.split_on_char ':' e with
       | r :: offs :: rest ->
         (try
@@ -215,6 +218,7 @@ let () =
       match List.filter (fun s -> s <> "") (String.split_on_char ' ' line) with
       | ["one"; c; r; s] -> run_tuple c (parse_seqs s) (int_of_string r)
       | ["all"; c; s] -> run_tuple c (parse_seqs s) (-1)
+      | ["rot"; c; s] -> run_tuple c (parse_seqs s) (-1)
       | ["pad"; x] -> run_pad (Int64.of_string x)
       | ["sel"; c; r; s] -> run_sel c (parse_seqs s) (int_of_string r)
       | ["sel"; c; r] -> run_sel c [[]] (int_of_string r)
